@@ -29,7 +29,8 @@ def body(ctx, conv, nk, positive, order, dpos, two_depths, via, holes):
         sdims, sshape = ('x',), (nloc,)
         base = xarray.Dataset()
     elif conv == 'cf1d':
-        base = builders.cf1d(1, nloc)
+        # (stored cell bounds: geometry that is made of data variables with a dimension of their own)
+        base = builders.cf1d(1, nloc, lat_bounds=numpy.array([[9.5, 10.5]]), lon_bounds=numpy.array([[99.0, 101.0], [101.0, 103.0]]))
         sdims, sshape = ('y', 'x'), (1, nloc)
     elif conv == 'shoc_standard':
         base = builders.shoc_standard(1, nloc)
@@ -113,10 +114,17 @@ def body(ctx, conv, nk, positive, order, dpos, two_depths, via, holes):
         variables['sed'] = (dims_sed, sed)
         coords['zsed'] = (('k2',), z2, {'positive': positive})
         depth_names.append('zsed')
+    # variables along the depth axis only (layer thickness, a profile): nothing to reduce, they go with the dimension
+    variables['dz'] = (('k',), numpy.arange(nk) + 1.0)
+    variables['profile'] = (('t', 'k'), numpy.arange(2 * nk).reshape(2, nk) + 0.5)
+    # an integer variable on the layers, listed after the others
+    code = numpy.arange(nk * int(numpy.prod(sshape)), dtype='int16').reshape((nk,) + sshape)
+    variables['code'] = (('k',) + tuple(sdims), code)
     thick = make_var('thick', ('k',) + tuple(sdims))
     coords['thickness'] = (('k',) + tuple(sdims), thick, {'long_name': 'layer thickness'})
     ds = base.assign({n: xarray.Variable(*v) for n, v in variables.items()}).assign_coords(
         {n: (v if isinstance(v, xarray.Variable) else xarray.Variable(*v)) for n, v in coords.items()})
+    ds['temp'].encoding.update({'_FillValue': -999.0, 'dtype': numpy.dtype('float32'), 'zlib': True})
     ctx.note('config', dict(conv=conv, nk=nk, positive=positive, order=order, dpos=dpos, two=two_depths))
 
     with warnings.catch_warnings():
@@ -136,6 +144,17 @@ def body(ctx, conv, nk, positive, order, dpos, two_depths, via, holes):
             out = depth_ops.ocean_floor(ds, depth_names, non_spatial_variables=['time'])
 
     ctx.check('k' not in out.dims and 'zc' not in out.variables, 'depth dimension and its coordinate are removed')
+    ctx.check(not any('k' in v.dims or 'k2' in v.dims for v in out.variables.values()), 'no variable is left on a depth dimension')
+    ctx.check('code' in out.variables and out['code'].dtype == numpy.dtype('int16') and tuple(out['code'].dims) == tuple(sdims),
+              'an integer variable on the layers is reduced like the others and stays an integer variable')
+    if 'code' in out.variables and tuple(out['code'].dims) == tuple(sdims):
+        oks = []
+        for loc in numpy.ndindex(*sshape):
+            for k in range(nk):
+                deeper_all_dry = And(*[Or(flags[(c,) + loc], Not(phys[c] > phys[k])) for c in range(nk) if c != k])
+                oks.append(Implies(And(Not(flags[(k,) + loc]), deeper_all_dry), out['code'].values[loc] == code[(k,) + loc]))
+        ctx.check(And(*oks), 'code: the value of the deepest layer that holds data')
+    ctx.check(all(out['temp'].encoding.get(k) == v for k, v in ds['temp'].encoding.items()), 'a reduced variable keeps its encoding')
     if two_depths == 'same_dim':
         ctx.check('height' not in out.variables, 'second coordinate of the depth dimension removed')
     elif two_depths:
